@@ -14,7 +14,7 @@ Use from a check (checks/<ID>.py):
         def gen(self, tier):                        # regenerate + build; a failure is a broken tie
             return GenTie.tie("C09")                # (combine with the check's own generator if it has one)
 
-gen()        -> (ok, log)   run gotrans only (rewrites coq/Gen/GenFuns.v, GenSemCheck.v)
+gen()        -> (ok, log)   run gotrans only (rewrites coq/Gen/GenFuns.v, GenPath.v, GenParse.v, GenSemCheck.v)
 build(pid)   -> (ok, log)   build the .vo closure of the property files of pid (only the imported
                             .vo of coq/Route and coq/Dispatch are made, never those whole areas)
 props(pid)   -> [("Gen", "Props_Gen....v"), ...]     pid None: all
@@ -35,13 +35,42 @@ FILES = {
     "Props_Gen_C14.v": ("C14",),                              # informational guard of recorder.WriteHeader
     "Props_Gen_C15.v": ("C15", "C13"),                        # scopeToString, HandlerScope constants
     "Props_Gen_C20.v": ("C20",),                              # level
+    "Props_Gen_C17.v": ("C17",),                              # CleanPath / bufApp (GenPath.v): C17/Model.v, C17/Spec.v
+    "Props_Gen_C10.v": ("C10",),                              # Router.parseRoute (GenParse.v): Pattern/ParseRoute.v
 }
 
-# the only .vo of other areas the Gen area imports
+# the only .vo of other areas the Gen area imports: (area, targets, property files that need them; None = all)
 DEPS = [
-    ("Route", ["Node.vo", "Tree.vo", "HostPort.vo", "Iter.vo", "HostEquiv.vo", "Props_C09_host.vo"]),
-    ("Dispatch", ["Redirect.vo"]),
+    ("Route", ["Node.vo", "Tree.vo", "HostPort.vo", "Iter.vo", "HostEquiv.vo", "Props_C09_host.vo"], None),
+    ("Dispatch", ["Redirect.vo"], None),
+    ("C17", ["Model.vo", "Spec.vo", "Proofs.vo", "ProofsModel.vo"], ("Props_Gen_C17.v",)),   # BridgeC17.v
+    ("Pattern", ["Props_C10.vo"], ("Props_Gen_C10.v",)),      # BridgeC10.v: the model and C10's own theorems
 ]
+
+
+# definitions that live in their own generated file: a refusal of one of them breaks only the ties
+# of the property files named here (gotrans drops the definition, the other files are complete)
+OWN_FILE = {"parseRoute": ("Props_Gen_C10.v",), "bufApp": ("Props_Gen_C17.v",), "CleanPath": ("Props_Gen_C17.v",)}
+
+
+def broken_lemmas(log):
+    """Names of the lemmas in which coqc stopped: 'File "./BridgeC10.v", line 203' -> 'BridgeC10.v: sim_default'."""
+    out = []
+    for m in lib.re.finditer(r'File "\./([A-Za-z0-9_]+\.v)", line (\d+)', log):
+        f, ln = m.group(1), int(m.group(2))
+        try:
+            src = open(os.path.join(lib.COQ, AREA, f)).read().splitlines()[:ln]
+        except OSError:
+            continue
+        name = None
+        for line in src:
+            mm = lib.re.match(r"\s*(?:Lemma|Theorem|Corollary|Example|Fact|Definition|Fixpoint)\s+([A-Za-z0-9_']+)", line)
+            if mm:
+                name = mm.group(1)
+        item = "%s: %s (line %d)" % (f, name, ln)
+        if item not in out:
+            out.append(item)
+    return out
 
 
 def props(pid=None):
@@ -49,7 +78,7 @@ def props(pid=None):
 
 
 def gen():
-    """Regenerate coq/Gen/GenFuns.v (+ GenSemCheck.v) from the sources under test."""
+    """Regenerate coq/Gen/GenFuns.v (+ GenPath.v and GenParse.v, written next to it, + GenSemCheck.v) from the sources under test."""
     hb, lg = lib.build_harness("gotrans")
     if hb is None:
         return False, "gotrans does not build:\n" + lg
@@ -65,14 +94,17 @@ def gen():
 def build(pid=None):
     logs = []
     seen = set()
-    for area, targets in DEPS:
-        ok, lg = lib.coq_build(area, targets=targets)
-        logs.append(lg)
+    wanted = [f for _, f in props(pid)]
+    for area, targets, needed_by in DEPS:
         seen.add(area)
         seen.update(lib.area_deps(area))
+        if needed_by is not None and not any(f in wanted for f in needed_by):
+            continue        # not imported by the property files of pid: neither built nor required
+        ok, lg = lib.coq_build(area, targets=targets)
+        logs.append(lg)
         if not ok:
             return False, "\n".join(logs)
-    targets = [f[:-2] + ".vo" for _, f in props(pid)]
+    targets = [f[:-2] + ".vo" for f in wanted]
     ok, lg = lib.coq_build(AREA, _seen=seen, targets=targets)
     logs.append(lg)
     return ok, "\n".join(logs)
@@ -83,12 +115,27 @@ def tie(pid=None):
     with lib.Lock("area.Gen.run"):
         ok, lg = gen()
         if not ok:
-            # a refused function is dropped from GenFuns.v: build anyway so the log names the bridges it breaks
-            _, lb = build(pid)
-            return False, lg + "\n" + lb[-2500:]
+            refused = lib.re.findall(r"REFUSED gen_([A-Za-z0-9_']+):", lg)
+            mine = [f for _, f in props(pid)]
+            if refused and all(r in OWN_FILE and not any(f in mine for f in OWN_FILE[r]) for r in refused):
+                lg += "\n(refused definitions %s are not used by the property files of %s)" % (refused, pid)
+            else:
+                # a refused function is dropped from its file: build anyway so the log names the bridges it breaks
+                _, lb = build(pid)
+                bl = broken_lemmas(lb)
+                named = "broken bridge lemma: " + ", ".join(bl) if bl else ""
+                rl = "\n".join(l for l in lg.splitlines() if "REFUSED" in l)
+                return False, lg + ("\n" + named if bl else "") + "\n" + lb[-2000:] + ("\n==> " + named if bl else "") + "\n==> " + rl[-600:]
         ok, lb = build(pid)
         if not ok:
-            return False, "bridge proofs no longer hold for the regenerated functions (coq/Gen):\n" + lb[-3000:]
+            bl = broken_lemmas(lb)
+            # callers keep the last 3000 characters and print the first 1500: lemma names first, then coqc's error
+            k = lb.find('File "./')
+            err = lb[k:k + 2400] if k >= 0 else lb[-2400:]
+            named = "broken bridge lemma: " + ", ".join(bl) if bl else ""
+            # callers keep the tail of the log: name the lemma first AND last
+            return False, ("bridge proofs no longer hold for the regenerated functions (coq/Gen)" +
+                           ("; " + named if bl else "") + ":\n" + err + ("\n==> " + named if bl else ""))
         out = [lg.strip()]
         for area, pf in props(pid):
             o1 = lib.props_obligations(area, pf)
